@@ -21,8 +21,8 @@ only = sys.argv[1:]
 for d in props:
     pid = d["id"]
     if only and pid not in only: continue
-    touched.clear()
     p = model.Project()
+    touched.clear()   # loading the project itself walks every function (N8)
     with contextlib.redirect_stdout(io.StringIO()):
         ctx = run_rules(pid, "quick", p)
     files = [f for f in d["anchors"]["files"] if f.endswith(".py")]
